@@ -95,7 +95,8 @@ def run(ctx):
     found = False
     for (s, d), fs in ef.items():
         for f in fs:
-            for r in flow.relational(f):
+            from lib import relational_deep
+            for r in relational_deep(W, f):
                 if r[0] == "Ne" and ("param", RFC, 2) in (r[1], r[2]):
                     other = r[1] if r[2] == ("param", RFC, 2) else r[2]
                     tp = tagpath(W, other)
